@@ -420,7 +420,7 @@ class SeqCheck:
     def __init__(self, mod):
         self.m = mod
 
-    def run(self, tier, seed, only_lines=None):
+    def run(self, tier, seed, only_lines=None, write=True):
         m = self.m
         pid = m.PID
         t0 = time.time()
@@ -542,7 +542,9 @@ class SeqCheck:
             "tie_oracle_verdicts_on_impl": {t: _count(v.split()[0] for v in tv) for t, tv in zip(getattr(m, "TIE_ORACLES", ()), ties)},
             "case_kinds": _count(str(c[1].get("k", c[1])) for c in cases),
         }
-        write_evidence(pid, tier, seed, cov, m.ASSUMPTIONS, wall, 1 if status else 0)
+        if write:
+            write_evidence(pid, tier, seed, cov, m.ASSUMPTIONS, wall, 1 if status else 0)
+        self.last = (cov, list(m.ASSUMPTIONS))
         log("%s: %d scenarios, %d non-trivial, %d impl-oracle failures (%d known), %d impl/model disagreements, proofs %s, %.1fs" % (
             pid, len(lines), nontriv, cov["impl_oracle_failures"], sum(len(v) for v in knownhits.values()), len(disagree),
             "ok (%d theorems)" % proofs["discharged"] if proofs["ok"] else "BROKEN: " + proofs["detail"][:200], wall))
@@ -643,6 +645,32 @@ def pipe_shrinks(p):
         yield p[:-1]
 
 
+def run_both(seq_mod, conc_mod, tier, seed):
+    """a property with a sequential and a concurrent part: run both engines, one evidence file"""
+    t0 = time.time()
+    a, b = SeqCheck(seq_mod), ConcCheck(conc_mod)
+    st1 = a.run(tier, seed, write=False)
+    st2 = b.run(tier, seed, write=False)
+    if not hasattr(a, "last") or not hasattr(b, "last"):
+        return 1     # an infrastructure failure already wrote its own evidence and VIOLATION line
+    cov, ass = a.last
+    cov2, ass2 = b.last
+    cov = dict(cov)
+    cov["evaluations"] += cov2["evaluations"]
+    cov["distinct_nontrivial"] += cov2["distinct_nontrivial"]
+    cov["samples"] = cov["samples"] + cov2["samples"]
+    cov["rule"] = "SEQUENTIAL: " + cov["rule"] + " CONCURRENT: " + cov2["rule"]
+    cov["traces_validated_against_impl"] += cov2["traces_validated_against_impl"]
+    cov["disagreements_checked"] += cov2["disagreements_checked"]
+    for k, v in cov2.items():
+        if k not in cov:
+            cov[k] = v
+        elif k not in ("evaluations", "distinct_nontrivial", "samples", "rule", "traces_validated_against_impl", "disagreements_checked"):
+            cov["conc_" + k] = v
+    write_evidence(seq_mod.PID, tier, seed, cov, ass + [x for x in ass2 if x not in ass], time.time() - t0, 1 if (st1 or st2) else 0)
+    return 1 if (st1 or st2) else 0
+
+
 # ---------------------------------------------------------------- command line
 def load_prop(pid):
     sys.path.insert(0, os.path.join(VERIF, "gen", "props"))
@@ -685,18 +713,18 @@ def cmd_replay(path):
     d = json.load(open(path))
     pid = d["property"]
     mod = load_prop(pid)
-    if hasattr(mod, "replay"):
-        return mod.replay(d)
     if "scenario" not in d:
         log("replay names a broken proof/correspondence only: %s" % d.get("detail", "")[:500])
         return cmd_check(pid, "quick")
     if d.get("engine") == "conc":
+        if hasattr(mod, "CONC_MODULE"):
+            mod = load_prop(mod.CONC_MODULE)
         case = dict(d["case"])
         sched = list(d.get("sched", ["random", 0, 1]))
         case["scn"] = [f for f in case["scn"] if not (isinstance(f, list) and f and f[0] == "sched")] + [["sched"] + sched] + ([["want-choices"]] if sched[0] == "replay" else [])
         case["sched"] = sched
         return ConcCheck(mod).run("quick", int(d.get("seed", 1)), only=[case])
-    return SeqCheck(mod).run("quick", int(d.get("seed", 1)), only_lines=[d["scenario"]])
+    return SeqCheck(mod).run("quick", int(d.get("seed", 1)), only_lines=[d["scenario"]])   # (a module-level run() is for the full check only)
 
 
 def main(argv):
@@ -853,7 +881,7 @@ class ConcCheck:
     def __init__(self, mod):
         self.m = mod
 
-    def run(self, tier, seed, only=None):
+    def run(self, tier, seed, only=None, write=True):
         m = self.m
         pid = m.PID
         t0 = time.time()
@@ -917,7 +945,9 @@ class ConcCheck:
             "impl_oracle_failures": len(res["violations"]), "known_finding_hits": {k: len(v) for k, v in knownhits.items()},
         }
         cov.update(res.get("extra", {}))
-        write_evidence(pid, tier, seed, cov, m.ASSUMPTIONS, wall, 1 if status else 0)
+        if write:
+            write_evidence(pid, tier, seed, cov, m.ASSUMPTIONS, wall, 1 if status else 0)
+        self.last = (cov, list(m.ASSUMPTIONS))
         log("%s: %d scenarios, %d schedules, %d distinct non-trivial observations, %d oracle failures (%d known), %d unexplained, proofs %s, %.1fs" % (
             pid, len(lines), nruns, len(res.get("nontrivial", ())), len(res["violations"]), sum(len(v) for v in knownhits.values()), len(unshown),
             "ok (%d theorems)" % proofs["discharged"] if proofs["ok"] else "BROKEN: " + proofs["detail"][:200], wall))
